@@ -153,4 +153,6 @@ def _add_os_path_join(module_context, start_leaf, bracket_start):
         return check(searched_node.children[0], [])
     elif searched_node.type == 'error_node':
         # Stuff like `join(""`
+        if not arglist_nodes:
+            return None
         return check(arglist_nodes[-1], [])
